@@ -3,7 +3,7 @@
    same formulas is measured per sampled case by kernel-checked interval certificates. *)
 From Coq Require Import Reals List Bool QArith Lra.
 From EsVerif.Common Require Import Base.
-From EsVerif.C10 Require Import Gen Model Spec Trig Forward Poly History Proofs.
+From EsVerif.C10 Require Import Gen Model Spec Trig Forward Poly History Proofs Source.
 Import ListNotations.
 Local Open Scope R_scope.
 
@@ -160,6 +160,37 @@ Theorem C10_same_checkers_sound :
   /\ (forall a b tol, sky_list_same a b tol = true ->
         Forall2 (fun p q => (Qabs.Qabs (snd p - snd q) <= tol /\ lon_wrap_abs (fst p - fst q) * lon_weight (snd p) <= tol)%Q) a b).
 Proof. split; [exact qlist_close_abs_sound|exact sky_list_same_sound]. Qed.
+
+(* Tie to the source: the model's rotation matrix, _rotate, CD-matrix application, the formulas of
+   image2sph / sph2image and the jacobian are, expression for expression, what c10_translate.py
+   translated from esutil/wcsutil.py into Gen.v (the src_ definitions) for the tree under check. *)
+Theorem C10_model_is_source :
+  (src_d2r = d2r /\ src_r2d = r2d)
+  /\ (forall alpha_p delta_p longpole,
+        mat3_rows (rotation_matrix alpha_p delta_p longpole) = src_rotation_matrix alpha_p delta_p longpole)
+  /\ (forall longitude latitude r,
+        rotate_ longitude latitude r =
+        src_rotate atan2 Rclip (m00 r) (m01 r) (m02 r) (m10 r) (m11 r) (m12 r) (m20 r) (m21 r) (m22 r) longitude latitude)
+  /\ (forall h x y, apply_cd h x y = src_apply_cd (h_cd11 h) (h_cd12 h) (h_cd21 h) (h_cd22 h) x y)
+  /\ (forall h x y, apply_cdinv h x y =
+        src_apply_cdinv (h_cd22 h / cd_det h) (- h_cd12 h / cd_det h) (- h_cd21 h / cd_det h) (h_cd11 h / cd_det h) x y)
+  /\ (forall w x y, image2sph w x y =
+        let r := src_image2sph_r x y in
+        let latitude := if Rlt_dec 0 r then src_image2sph_lat r else src_image2sph_lat_pole in
+        let ll := Rotate w (src_image2sph_lon atan2 x y * src_r2d) (latitude * src_r2d) true in
+        (fold360 (fst ll), snd ll))
+  /\ (forall w longitude latitude, sph2image w longitude latitude =
+        let ll := Rotate w longitude latitude false in
+        let lo := fst ll * src_d2r in
+        let la := snd ll * src_d2r in
+        if Rlt_dec 0 la then src_sph2image lo la else (0, 0))
+  /\ (forall c p0 m0 zp zm step, jac_of c p0 m0 zp zm step =
+        src_jacobian wrap_ra_diff step (fst c) (snd c) (fst p0) (snd p0) (fst m0) (snd m0) (fst zp) (snd zp) (fst zm) (snd zm)).
+Proof.
+  split; [exact src_constants|]. split; [exact rotation_matrix_is_source|]. split; [exact rotate_is_source|].
+  split; [exact apply_cd_is_source|]. split; [exact apply_cdinv_is_source|]. split; [exact image2sph_is_source|].
+  split; [exact sph2image_is_source|exact jacobian_is_source].
+Qed.
 
 (* Non-vacuity: concrete distorted headers meet the hypotheses used above. *)
 Definition ex_header (p : proj) : header :=
